@@ -623,3 +623,11 @@ Example C05_mixed_instance_runs :
   | Err _ => false
   end = true.
 Proof. exact exm_runs. Qed.
+(* EVERY load of writer rows - preamble code without tab offset, basic and special characters, no special character twice in a
+   row - satisfies the hypothesis dd of C05_popon_refines_608_mixed: the special characters single among doubled codes *)
+From PV Require Import proofs.SccMixedRowsFacts.
+Theorem C05_writer_rows_dd : forall l, Forall wrow l -> forall p, dd p (body_m l) (flat_map (emit_row true) l).
+Proof. exact writer_rows_dd. Qed.
+Print Assumptions C05_writer_rows_dd.
+Example C05_writer_rows_instance : Forall wrow exm_l.
+Proof. exact exm_wrows. Qed.
